@@ -177,7 +177,8 @@ func init() {
 	checks["C04"] = func(c *ctx) {
 		o := prog.DefaultOpts()
 		o.PredPct, o.FallbackPct = 35, 30
-		g := genPart(c, "C04", c.pick(60, 700), c.pick(60, 700), o, 1, "panic,fault", c.pick(6, 14), false,
+		o.ParMatrix = true
+		g := genPart(c, "C04", c.pick(60, 700), c.pick(60, 700), o, 1, "panic,fault,one", c.pick(8, 14), false,
 			"some user function actually panicked (string, error, struct, int, nil-map write, index out of range) - task, predicate, parallel task, slice/map element function or End hook")
 		both(c, nil, g)
 	}
@@ -200,7 +201,8 @@ func init() {
 		s := schedC07(c)
 		o := prog.DefaultOpts()
 		o.ForceCOE = 2
-		g := genPart(c, "C07", c.pick(60, 700), c.pick(40, 500), o, 1, "fault,panic", c.pick(6, 14), false,
+		o.ParMatrix = true
+		g := genPart(c, "C07", c.pick(60, 700), c.pick(40, 500), o, 1, "fault,panic,one", c.pick(8, 14), false,
 			"fail-fast directive in which some user function actually failed (error or panic): returned error identity, untouched Results sentinels, nothing downstream invoked")
 		both(c, s, g)
 	}
@@ -208,7 +210,8 @@ func init() {
 		s := schedC08(c)
 		o := prog.DefaultOpts()
 		o.ForceCOE = 1
-		g := genPart(c, "C08", 0, c.pick(100, 1200), o, 1, "fault,panic", c.pick(8, 16), false,
+		o.ParMatrix = true
+		g := genPart(c, "C08", 0, c.pick(100, 1200), o, 1, "fault,panic,one", c.pick(8, 16), false,
 			"Parallel with cff.ContinueOnError(expr) (expr true in 80% of the scenarios, false otherwise) in which some call actually failed")
 		both(c, s, g)
 	}
@@ -222,7 +225,8 @@ func init() {
 	checks["C10"] = func(c *ctx) {
 		o := prog.DefaultOpts()
 		o.EndPct, o.MaxColl = 60, 4
-		g := genPart(c, "C10", 0, c.pick(120, 1500), o, 1, "ok,fault", c.pick(6, 12), false,
+		o.ParMatrix = true
+		g := genPart(c, "C10", 0, c.pick(120, 1500), o, 1, "ok,fault,one", c.pick(8, 12), false,
 			"Parallel with at least two functions or at least two collection elements (exactly-once multiset of (index,element)/(key,value) tokens; End hook after every element call, never after a failed one)")
 		both(c, nil, g)
 	}
@@ -243,9 +247,10 @@ func init() {
 	}
 	checks["C15"] = func(c *ctx) {
 		o := prog.DefaultOpts()
-		o.WrapPct, o.InstrPct, o.PredPct, o.FallbackPct, o.ShadowPct = 100, 50, 30, 30, 50
+		o.WrapPct, o.InstrPct, o.PredPct, o.FallbackPct, o.ShadowPct, o.BarePct = 100, 50, 30, 30, 50, 40
 		g := genPart(c, "C15", c.pick(60, 700), c.pick(60, 700), o, 2, "ok,fault", c.pick(3, 6), false,
-			"every argument expression of the directive is wrapped in a logging identity function (>= 3 sites): ctx, Params, Results, Concurrency, ContinueOnError, emitters, instrument names, task/predicate/element/End function expressions, FallbackWith values, collections")
+			"every argument expression of the directive is wrapped in a logging identity function (>= 3 sites): ctx, Params, Results, Concurrency, ContinueOnError, emitters, instrument names, task/predicate/element/End function expressions, FallbackWith values, collections; "+
+				"or (40% of the programs, 'bare') every argument is a plain local variable - named like a generated identifier where types allow - that the program overwrites with a recognisable replacement (poison token, twin function, marked context, dummy pointer, replacement emitter/name) when the first user function is entered: any replacement observed later means the argument was not evaluated before the tasks started")
 		both(c, nil, g)
 	}
 	checks["C18"] = func(c *ctx) {
